@@ -441,6 +441,40 @@ def classifyLoss (known : List Nat) (inp enc : List Nat) : String :=
     | _, _ => none
   verdicts.headD "other"
 
+/-- classification of ONE pair of raw extension tails (`ExtraOpaqueData` of dec(in) and of
+    dec(enc(dec in))), both handed over by the harness: same verdicts as `classifyLoss`, no search
+    for the tail boundary and no requirement on the bytes before the tail (those are covered by
+    the typed-field comparison `fixt`). -/
+def classifyTails (known : List Nat) (x1 x2 : List Nat) : String :=
+  match specParse [] true false (x1.length + 2) none x1,
+        specParse [] true false (x2.length + 2) none x2 with
+  | .ok (ri, _), .ok (ro, _) =>
+    let tin := ri.map (·.1)
+    let tout := ro.map (·.1)
+    -- Records of KNOWN types are not judged here: their content lives in typed fields, which
+    -- the harness compares separately (`fixt`; a lost known record shows up there as
+    -- `lossy-reencode-typed-fields`).  A known record that is present in one tail only while
+    -- the typed fields are equal is a default/empty value the encoder does not re-emit
+    -- (e.g. reply_channel_range timestamps record `01 01 00` with zero entries).
+    let droppedUnknown := (tin.filter (!tout.contains ·)).filter (!known.contains ·)
+    let unknownKept := ro.all (fun r => known.contains r.1 || ri.contains r)
+    if !unknownKept then "other"
+    else if !droppedUnknown.isEmpty then "unknown-dropped"
+    else "benign"
+  | _, _ => "other"
+
+def parseHexList (s : String) : Option (List (List Nat)) :=
+  if s == "none" then some [] else (s.splitOn ",").mapM hexBytes?
+
+/-- all `ExtraOpaqueData` pairs: every differing pair must be explained; the verdict is the worst. -/
+def classifyExtras (known : List Nat) (xs1 xs2 : List (List Nat)) : String :=
+  if xs1.length != xs2.length then "other" else
+  let vs := (xs1.zip xs2).filterMap fun (a, b) => if a == b then none else some (classifyTails known a b)
+  if vs.contains "other" then "other"
+  else if vs.contains "known-record" then "known-record"
+  else if vs.contains "unknown-dropped" then "unknown-dropped"
+  else if vs.isEmpty then "other" else "benign"
+
 def u16At (b : List Nat) (i : Nat) : Option Nat :=
   match b[i]?, b[i + 1]? with
   | some x, some y => some (x * 256 + y)
@@ -507,8 +541,13 @@ def stepMsg (s : St) (ws : List String) (line : String) (isFail : Bool) : IO St 
           -- which information?  (the clause name carries the classification)
           let inp := (hexBytes? inHex).getD []
           let enc := ((kv? res "enc").bind hexBytes?).getD []
+          let known? := if isFail then some [55555] else knownTlvTypes s.mtype
+          let xd := match known?, (kv? res "xd1").bind parseHexList, (kv? res "xd2").bind parseHexList with
+            | some known, some xs1, some xs2 => some (classifyExtras known xs1 xs2)
+            | _, _, _ => none
           let cls :=
-            if isFail then
+            if let some c := xd then c
+            else if isFail then
               match failUpdate inp, failUpdate enc with
               | some ui, some uo => classifyLoss [55555] ui uo
               | _, _ => "other"
